@@ -64,15 +64,18 @@ Modes == <<"ok", "err", "panic-err", "panic-str">>
 Routes == IF Full THEN {<<"call", "dotted">>, <<"call", "dotless">>, <<"override", "dotted">>, <<"override", "dotless">>}
           ELSE {<<"call", "dotted">>, <<"override", "dotless">>}
 
-VARIABLES sh, b, pat, n, mode, route, ph
-vars == <<sh, b, pat, n, mode, route, ph>>
+\* ctxend = 1: the context of the evaluation ends WHILE THE ARGUMENTS ARE EVALUATED (the last argument expression,
+\* whose value is nil, cancels it): the contract speaks about counts and types only, so the outcome is the same
+VARIABLES sh, b, pat, n, mode, route, ph, ctxend
+vars == <<sh, b, pat, n, mode, route, ph, ctxend>>
 Init == /\ ph = 0 /\ sh \in Shapes
         /\ b \in (IF sh.var = 1 THEN 1..Len(Bounds) ELSE {1})
         /\ n \in 0..5 /\ pat \in 1..7 /\ (n = 0 => pat = 1)
         /\ route \in Routes
         /\ mode \in (IF pat = 1 /\ route[1] = "call" /\ route[2] = "dotted" THEN 1..4 ELSE {1})
+        /\ ctxend \in {0, 1} /\ (ctxend = 1 => n >= 1 /\ pat = 2 /\ mode = 1)
 
-Next == /\ ph = 0 /\ ph' = 1 /\ UNCHANGED <<sh, b, pat, n, mode, route>>
+Next == /\ ph = 0 /\ ph' = 1 /\ UNCHANGED <<sh, b, pat, n, mode, route, ctxend>>
         /\ LET args == Pattern(pat, n)
                bounds == Bounds[b]
                out == Contract(sh, bounds, args)
@@ -85,8 +88,8 @@ Next == /\ ph = 0 /\ ph' = 1 /\ UNCHANGED <<sh, b, pat, n, mode, route>>
                c == [kind |-> "binder", tag |-> Typings[sh.ty], fn |-> ShapeName(sh),
                      name |-> IF route[1] = "call" THEN LispName(sh) ELSE "ovr-" \o LispName(sh),
                      entry |-> route[1], path |-> route[2], bounds |-> bounds, args |-> args, mode |-> md,
-                     ctx_expected |-> sh.ctx, expect |-> out, result |-> res,
-                     src |-> ShapeName(sh) \o " " \o ToString(bounds) \o " n=" \o ToString(n) \o " p" \o ToString(pat) \o " " \o md]
+                     ctx_expected |-> sh.ctx, expect |-> out, result |-> res, ctxend |-> ctxend,
+                     src |-> ShapeName(sh) \o " " \o ToString(bounds) \o " n=" \o ToString(n) \o " p" \o ToString(pat) \o " " \o md \o (IF ctxend = 1 THEN " ctxend" ELSE "")]
            IN PrintT("CASE " \o ToJson(c))
 Spec == Init /\ [][Next]_vars
 =============================================================================
